@@ -90,14 +90,13 @@ prop("C16", True, "model_checking",
      "Neutrality outside the trigger for the six relaxing options (alone and combined), exact prediction for special schemes, the five replaced percent-encode sets, remove-user-info/port/fragment (standard's setters), default-scheme, skip-equals (list machine), no-option parsers/profiles (also ParseRef with an empty base); postconditions for collapse, single-percent, sort-query.",
      TB, "DESIGN.md section 4/C16")
 prop("C17", True, "model_checking",
-     "fixed-point law evaluated by TLC on outputs observed from the real profiles; inputs: all strings of the parse families (option-composed profiles) and every spelling of the TLC-enumerated ordinary-web-URL grammar spec/Canon.tla (GoogleSafeBrowsing, Semantic)",
-     "For the experimental profiles the specification generates the domain and states the law; it does not predict the output. Known findings F03 (serializer) and F14 (skip-equals empty pair) are characterised by spec-evaluated predicates on the list stored in the first output.",
-     TB, "DESIGN.md section 4/C17")
+     "exact TLA+ model of the canonicalizer pipeline (spec/Canon.tla CanonRun: default-scheme retry, repeated percent-decoding re-entered through the standard's setters, remove-*, sort-query on the list machine; GoogleSafeBrowsing and Semantic as option records on their exact domain) + the fixed-point law; both evaluated by TLC on outputs observed from the real profiles",
+     "For WhatWg, WhatWgSortQuery and 9 option-composed profiles the OUTPUT of every string of the parse families is predicted by the specification and compared (so a wrong canonical form is caught even when it is a fixed point); for GoogleSafeBrowsing and Semantic the output is predicted on every spelling of the TLC-enumerated ordinary-web-URL grammar (where the unmodelled options - lax host, accept-invalid, Latin-1 override - cannot matter: Canon!ExactDomain) and the fixed-point law is checked on all of them. Known findings F03 / F14 are characterised by spec-evaluated predicates on the list stored in the first output.",
+     TB, "DESIGN.md section 4/C17, 10.1")
 prop("C18", True, "model_checking",
-     "variation operators of spec/Canon.tla; TLC emits classes (abstract URL x all combinations of up to 2-3 variations); class equality evaluated by TLC on real outputs; for standard-normalised variations TLC also proves equality on the spec (StdClassInv)",
-     "Classes over seed-chosen word sets of the grammar; all profiles on standard-normalised classes, GoogleSafeBrowsing / Semantic / repeated-decoding profiles on the full variation list.",
+     "variation operators of spec/Canon.tla (18 structural variations + escapes at segment / parameter name / value / fragment); TLC emits classes (abstract URL x all combinations of up to 2-3 variations); class equality evaluated by TLC on real outputs; for standard-normalised variations TLC also proves equality on the spec (StdClassInv)",
+     "Classes over seed-chosen word sets of the grammar, two-parameter queries; all profiles on standard-normalised classes, GoogleSafeBrowsing / Semantic / repeated-decoding profiles on the full variation list.",
      TB, "DESIGN.md section 4/C18")
-
 NOT_YET = "check under construction in this session (see DESIGN.md section 4 for the planned decision procedure)"
 
 def main():
